@@ -26,6 +26,13 @@ CLAIMED["C07"] = dict(
     technique="symbolic execution of real code (CrossHair+z3): byte contents, cut positions symbolic; per-path concrete validation",
 )
 
+CLAIMED["C01"] = dict(
+    text="Bounded symbolic execution of producer -> wire -> real consumers: (a) packets with symbolic contents through the real separator/fixed-size base classes, StringLineSerializer, the compressor wrapper base class (pure-Python codec), stapled composite and converter protocols; (b) for the C-coded codecs (json, struct, base64, zlib, bz2, pickle-file) a fixed packet corpus with symbolic cut positions and size hints, i.e. every chunking of each wire. Asserted: delivered == sent, in order, once, nothing left, no error.",
+    design="4/C01",
+    technique="symbolic execution of real code (CrossHair+z3): symbolic packet contents and cut positions; corpus x solver-enumerated chunkings for C codecs",
+    note="For C-coded serializers the content dimension is a fixed corpus (sampled); only chunking/receive path/size hint is decided by the solver.",
+)
+
 NOT_APPLICABLE = {
     "C08": "TLS byte-transparency/encryption is decided inside OpenSSL's record layer (C code, cryptography): it cannot be executed symbolically by any installed engine; stubbing it would verify the stub, and running real OpenSSL realises every symbolic size (degenerates to concrete enumeration). See DESIGN.md section 5.",
     "C09": "Whether a cut at a byte offset of a real ciphertext stream yields SSLEOFError / SSLZeroReturnError / a protocol error is OpenSSL's partial-record parsing, not encodable; the EasyNetwork part is a three-way exception mapping. See DESIGN.md section 5.",
